@@ -9,10 +9,14 @@ import (
 
 var registry = map[string]func(*checks.Run) int{
 	"C11": checks.CheckC11,
+	"C01": checks.CheckC01,
+	"C02": checks.CheckC02,
+	"C03": checks.CheckC03,
+	"C04": checks.CheckC04,
 }
 
 func main() {
-	if len(os.Args) < 3 {
+	if len(os.Args) < 2 || (os.Args[1] == "check" && len(os.Args) < 3) {
 		fmt.Println("usage: verif check <Cxx> [--tier quick|thorough]")
 		os.Exit(2)
 	}
@@ -39,6 +43,29 @@ func main() {
 			os.Exit(2)
 		}
 		os.Exit(f(run))
+	case "selftest":
+		run, err := checks.NewRun("SELFTEST", "quick")
+		if err != nil {
+			fmt.Println(err)
+			os.Exit(2)
+		}
+		nat, err := checks.BuildNative()
+		if err != nil {
+			fmt.Println(err)
+			os.Exit(2)
+		}
+		run.Native = nat
+		defer nat.Close()
+		a, d, sk, notes := checks.Calibrate(run)
+		fmt.Printf("ShSem vs /bin/bash on the repository's test programs: agree=%d disagree=%d skipped=%d\n", a, d, sk)
+		for _, n := range notes {
+			fmt.Println(" ", n)
+		}
+		nat.Close()
+		if d > 0 {
+			os.Exit(1)
+		}
+		os.Exit(0)
 	default:
 		fmt.Println("unknown command", os.Args[1])
 		os.Exit(2)
